@@ -1083,7 +1083,7 @@ func ExecRT(c CaseRT) *vkit.Result {
 // part 2: ReWrite / ReWriteU32 against a byte-slice model of the unread region
 
 type RwStep struct {
-	K   string `json:"k"` // w (typed write W), r (consume N bytes), rw (ReWrite Pos,B), rw32 (ReWriteU32 Pos,U)
+	K   string `json:"k"` // w (typed write W), r (consume N bytes), rw (ReWrite Pos,B), rw32 (ReWriteU32 Pos,U), reset (Reset())
 	W   *Op    `json:"w,omitempty"`
 	N   int    `json:"n,omitempty"`
 	Cp  bool   `json:"cp,omitempty"` // r: consume with the copying ReadN (kept and re-examined at the end) instead of ZReadN
@@ -1093,10 +1093,16 @@ type RwStep struct {
 }
 
 type CaseRW struct {
+	// 0 NewBufferX, 1 NewSizedBufferX(Size), 2 NewReadableBufferX(nil), 3 NewReadableBufferX(a private copy of Init):
+	// the unread region starts as Init
 	Ctor  int      `json:"ctor"`
 	Size  int      `json:"size,omitempty"`
+	Init  []byte   `json:"init,omitempty"`
 	Steps []RwStep `json:"steps"`
 }
+
+// rwBigLens: raw fields that push later positions above 64 KiB.
+var rwBigLens = []int64{1<<16 - 3, 1 << 16, 1<<16 + 1, 70000, 100000}
 
 func genPos(t *rapid.T, room int, label string) int {
 	// room = largest valid pos
@@ -1111,23 +1117,44 @@ func genPos(t *rapid.T, room int, label string) int {
 }
 
 func GenRW(t *rapid.T) CaseRW {
-	c := CaseRW{Ctor: rapid.IntRange(0, 1).Draw(t, "ctor")}
+	c := CaseRW{Ctor: rapid.IntRange(0, 3).Draw(t, "ctor")}
 	if c.Ctor == 1 {
 		c.Size = rapid.SampledFrom([]int{0, 4, 8, 64}).Draw(t, "size")
 	}
 	length := 0 // model length of the unread region
+	if c.Ctor == 3 {
+		// a buffer made from existing bytes: they are the unread region
+		if rapid.Bool().Draw(t, "inithdr") {
+			c.Init = []byte{0, 0, 0, 0, 9, 9} // a zero header in received bytes
+		} else {
+			c.Init = patterned(t, rapid.SampledFrom([]int{1, 4, 5, 13, 40, 300, 1025}).Draw(t, "initlen"), "init")
+		}
+		length = len(c.Init)
+	}
 	n := rapid.IntRange(2, 12).Draw(t, "nsteps")
 	for i := 0; i < n; i++ {
-		kind := rapid.IntRange(0, 9).Draw(t, "stepkind")
+		kind := rapid.IntRange(0, 10).Draw(t, "stepkind")
 		switch {
-		case kind <= 3 || length == 0:
+		case kind == 10 && i > 0 && length > 0:
+			// Reset() in mid-script: the buffer must behave like a fresh one, rewrites included
+			length = 0
+			c.Steps = append(c.Steps, RwStep{K: "reset"})
+		case kind <= 3 || kind == 10 || length == 0:
 			var o Op
-			if i == 0 && rapid.Bool().Draw(t, "placeholder") {
+			switch {
+			case i == 0 && rapid.Bool().Draw(t, "placeholder"):
 				o = Op{K: "u32"} // the documented use: a zero header rewritten once the size is known
-			} else {
+			case oneIn(t, 40, "bigw"):
+				// a raw field of 64 KiB and more: the positions of later rewrites lie above 64 KiB
+				o = Op{K: "bytes", Via: "zreadn", GN: rapid.SampledFrom(rwBigLens).Draw(t, "bigwn"), GS: rapid.Byte().Draw(t, "bigws")}
+			default:
 				o = genWriteOp(t, kindsAll, true)
 			}
-			length += len(modelEncode(nil, o))
+			if o.GN > 0 {
+				length += int(bodyLen(o))
+			} else {
+				length += len(modelEncode(nil, o))
+			}
 			c.Steps = append(c.Steps, RwStep{K: "w", W: &o})
 		case kind == 4:
 			k := rapid.IntRange(0, length).Draw(t, "consume")
@@ -1139,10 +1166,15 @@ func GenRW(t *rapid.T) CaseRW {
 				maxLen = 12
 			}
 			l := rapid.IntRange(0, maxLen).Draw(t, "rwlen")
-			if rapid.IntRange(0, 5).Draw(t, "rwall") == 0 {
+			switch rapid.IntRange(0, 7).Draw(t, "rwall") {
+			case 0:
 				l = length
 				if l > 4096 {
 					l = 4096
+				}
+			case 1, 2: // a patch longer than any fixed-width field
+				if length >= 13 {
+					l = rapid.IntRange(13, min(length, 200)).Draw(t, "rwlong")
 				}
 			}
 			pos := genPos(t, length-l, "rwpos")
@@ -1179,10 +1211,25 @@ func firstDiff(a, b []byte) int {
 
 func ExecRW(c CaseRW) *vkit.Result {
 	res := &vkit.Result{}
-	bx := newBuffer(c.Ctor&1, c.Size)
+	var bx *bytex.BufferX
 	var m []byte // model: the unread region
+	if c.Ctor == 3 {
+		// the buffer owns the slice it was made from (a private copy without spare capacity)
+		bx = bytex.NewReadableBufferX(append(make([]byte, 0, len(c.Init)), c.Init...))
+		m = append([]byte{}, c.Init...)
+		if !bytes.Equal(bx.Bytes(), m) {
+			return res.Failf("rewrite/ctor", "NewReadableBufferX over %d bytes: Bytes() = %x, want the bytes given", len(m), clip(bx.Bytes()))
+		}
+		res.Class("rewrite-buffer-from-existing-bytes")
+	} else {
+		bx = newBuffer(c.Ctor, c.Size)
+		if c.Ctor == 2 {
+			res.Class("rewrite-buffer-NewReadableBufferX(nil)")
+		}
+	}
 	var held keeper
 	effective, framed := 0, 0
+	afterReset := false
 	sync := func(site, what string) bool {
 		got := bx.Bytes()
 		if bx.Len() != len(m) || !bytes.Equal(got, m) {
@@ -1198,7 +1245,7 @@ func ExecRW(c CaseRW) *vkit.Result {
 				res.Skip("malformed-step")
 				continue
 			}
-			if known, _ := bufWrite(bx, *s.W); !known {
+			if known, _ := bufWrite(bx, expandOp(*s.W)); !known {
 				res.Skip("unknown-op")
 				continue
 			}
@@ -1227,6 +1274,13 @@ func ExecRW(c CaseRW) *vkit.Result {
 			}
 			m = m[s.N:]
 			res.Class("rewrite-after-consume")
+		case "reset":
+			bx.Reset()
+			m = nil
+			if bx.Len() != 0 || len(bx.Bytes()) != 0 {
+				return res.Failf("rewrite/Reset", "step %d: after Reset() Len() = %d, len(Bytes()) = %d", i, bx.Len(), len(bx.Bytes()))
+			}
+			afterReset = true
 		case "rw":
 			if s.Pos < 0 || s.Pos+len(s.B) > len(m) {
 				res.Skip("rewrite-outside-region")
@@ -1255,6 +1309,15 @@ func ExecRW(c CaseRW) *vkit.Result {
 			if s.Pos == 0 {
 				res.Class("rewrite-at-0")
 			}
+			if s.Pos > 0 && len(s.B) >= 13 && s.Pos+len(s.B) < len(m) {
+				res.Class("rewrite-13-or-more-bytes-inside")
+			}
+			if s.Pos > 1<<16 {
+				res.Class("rewrite-pos>64KiB")
+			}
+			if afterReset && len(s.B) > 0 {
+				res.Class("rewrite-after-Reset")
+			}
 		case "rw32":
 			if s.Pos < 0 || s.Pos+4 > len(m) {
 				res.Skip("rewrite-outside-region")
@@ -1279,6 +1342,12 @@ func ExecRW(c CaseRW) *vkit.Result {
 			}
 			m = append([]byte{}, got...)
 			res.Class("rewrite-u32")
+			if s.Pos > 1<<16 {
+				res.Class("rewrite-pos>64KiB")
+			}
+			if afterReset {
+				res.Class("rewrite-after-Reset")
+			}
 		default:
 			res.Skip("unknown-step")
 		}
@@ -1494,6 +1563,9 @@ var hostile = [][]byte{
 	{0xff, 0xff, 0xff, 0xff}, {0x00, 0x00, 0x00, 0x80}, {0xff, 0xff, 0xff, 0x7f}, {0x01, 0x00, 0x10, 0x00}, {0x00, 0x00, 0x10, 0x00},
 	{0xff, 0xff, 0xff, 0xff, 0xff, 0xff, 0xff, 0xff, 0xff, 0x01}, {0xff, 0xff, 0xff, 0xff, 0xff, 0xff, 0xff, 0xff, 0xff, 0x02},
 	{0x80, 0x80, 0x80, 0x80, 0x80, 0x80, 0x80, 0x80, 0x80, 0x80, 0x80, 0x00}, {0x80, 0x00}, {0x80}, {0xff, 0xff, 0xff, 0xff, 0x1f},
+	// varints of more than 64 bits: an 11th byte, a 10th byte above 1
+	{0xff, 0xff, 0xff, 0xff, 0xff, 0xff, 0xff, 0xff, 0xff, 0xff, 0x7f}, {0xff, 0xff, 0xff, 0xff, 0xff, 0xff, 0xff, 0xff, 0xff, 0x7f},
+	{0x80, 0x80, 0x80, 0x80, 0x80, 0x80, 0x80, 0x80, 0x80, 0x02},
 }
 
 // genReadOp draws a read that need not match anything written.
@@ -1699,6 +1771,12 @@ func modelRead(rem []byte, o Op) (exp int, want value, n int) {
 		case vTruncated:
 			return expError, value{}, 0
 		case vOverflow:
+			// more than 64 bits: the bytes denote no value of any of the four varint types. The library reads varints
+			// with encoding/binary.ReadUvarint / ReadVarint, which document an overflow error here; it is demanded only
+			// where encoding/binary.Uvarint itself refuses the same bytes (n <= 0: overflow, or the input ends first)
+			if _, bn := binary.Uvarint(rem); bn <= 0 {
+				return expError, value{}, 0
+			}
 			return expOpen, value{}, 0
 		}
 		switch o.K {
@@ -1780,6 +1858,11 @@ func ExecArb(c CaseArb) *vkit.Result {
 				return res.Failf("arbitrary/"+api+"/value-without-data", "read %d: %s at offset %d of %d bytes (%x…) cannot be satisfied but returned %s without error", i, api, off, len(data), clip(data[off:]), got)
 			}
 			res.Class("unsatisfiable-" + classOfKind(o.K))
+			if isVar(o.K) {
+				if _, _, st := modelUvarint(data[off:]); st == vOverflow {
+					res.Class("varint>64bit-refused")
+				}
+			}
 			if rem := data[off:]; o.K == "lstr" && len(rem) >= 4 && uint64(binary.LittleEndian.Uint32(rem)) > uint64(o.RL) {
 				res.Class("prefix>read-limit")
 			}
